@@ -28,7 +28,7 @@ EXPLANATION = ('Layer 1: every registered binary rule is attempted on every orde
 FUNCTIONS = ['AlgebraicReductionRule.apply', 'IdentityRule.apply', 'HomothetyRule.apply', 'AbstractBinaryRule.check', 'InverseBinaryRule.check', 'BINARY_RULE_REGISTRY and every registered rule (table layer)',
              'CompositionOperator.reduce (layer 3)']
 BOUNDS = {'quick': 'layer 2: chains of length 2-3 over 40 codes (26 kinds + scalar/identity on 7 structures) and chains X, p, q, Y[, Z] of length 4-5 over a 13-code alphabet where p @ q is a vanishing pattern, scalar values in -3..3; layer 3: all real chains of length 2-3 and all real chains X @ (vanishing pair) @ Y [@ Z]',
-          'thorough': 'quick tier + all symbolic chains of length 4 over the 13-code alphabet; layer 3: real chains of length <= 4'}
+          'thorough': 'quick tier + all symbolic chains of length 4 over an 8-code alphabet (A, A.I, U, U.T, Rot, Rot.T, HWP, polariser); layer 3: real chains of length <= 4'}
 STUBS = ['rules.HomothetyOperator / IdentityOperator / jnp / BINARY_RULE_REGISTRY bound to table-driven stubs inside the CrossHair run (the driver code itself is the real one)']
 ASSUMPTIONS = ['chains longer than the bound are outside the claim', 'identities produced by a rule mid-scan are not required to be removed (the property does not demand it)']
 RULE = 'case = CrossHair run for one first code (all chains with that head), or one batch of real chains; non-trivial = the batch contains reducible chains; distinct keys'
@@ -45,12 +45,16 @@ def cases(tier, seed):
     out += [('ch', first, maxlen) for first in range(n)]
     if tier == 'thorough':
         # all chains of length 4 over the 13-code alphabet (plain symbolic chains, no structure imposed)
-        out += [('ch-small4', first, 4) for first in _small_alphabet(M)]
+        out += [('ch-small4', first, 4) for first in _alpha8(M)]
     # one step deeper over the small alphabet of kinds that take part in annihilating / regenerating patterns
     small = _small_alphabet(M)
     out += [('ch-small', first, maxlen + 1) for first in small]
     out += [('real-nested', first) for first in range(M.NK + 2)]
     return out
+
+
+def _alpha8(M):
+    return [M.NAMES.index(n) for n in ('AI', 'A', 'U', 'UT', 'Rot', 'RotT', 'Hwp', 'Pol')]
 
 
 def _small_alphabet(M):
@@ -114,7 +118,7 @@ def run_case(key, twin=False):
     per = 240 if maxlen <= 3 else 1500
     if key[0] == 'ch-small4':
         per = 1500
-        out, dt = _crosshair(first, 4, per, allowed=_small_alphabet(M), minlen=4)
+        out, dt = _crosshair(first, 4, per, allowed=_alpha8(M), minlen=4)
     elif key[0] == 'ch-small':
         per = 500
         out, dt = _crosshair(first, maxlen + 1, per, allowed=_small_alphabet(M), minlen=maxlen, nested=True)
